@@ -1,7 +1,1735 @@
-//! C42: not implemented yet.
+//! C42: configuration choices do not change query results.
+//!
+//! MODEL-FREE differential check. One generated history (DDL + DML + prepared-insert bursts + transactions +
+//! TRUNCATE + queries + clean reopen + explicit checkpoints) is executed on a fresh database once per
+//! configuration; the *baseline* run issues no PRAGMA at all (the default database every other check uses), every
+//! other run issues `PRAGMA wal`, `PRAGMA synchronous`, `PRAGMA wal_checkpoint_threshold` (only when "tiny") and
+//! `PRAGMA wal_autoflush` right after create (and again after each reopen, since they are not persisted).
+//! Oracle: every statement's outcome (ok / error class / panic site, rows_affected, returned rows as a bag - or as
+//! a sequence when ORDER BY covers the primary key), the final state (per table: SELECT * bag, COUNT(*), ordered pk
+//! list, index probes on pk / secondary / unique columns) and the same observations after a clean close + reopen
+//! must be IDENTICAL to the baseline run. A mismatch is shrunk by dropping pragmas one at a time and ddmin over
+//! the history; signature = C42/<pragmas that are still needed>/<statement kind | observation>/<what differs>.
+//!
+//! Many-files variant: a history over 72 tables + 72 secondary indexes (the open-file LRU in
+//! src/storage/file_manager.rs holds 64 mmaps; Database::ensure_file_manager passes 64) written round-robin in
+//! autocommit, inside committed and rolled-back transactions, then read back; it is compared (a) against the
+//! same logical history split over 9 databases of 8 tables (no eviction there), (b) across configurations,
+//! (c) after reopen. Eviction is *measured* by counting the database's mmapped files in /proc/self/maps.
+use crate::report::{catch, Ctx};
+use crate::rng::{fnv, Rng};
+use crate::sqlm::db::{conv_rows, Scratch};
+use crate::sqlm::val::{row_key, Row, V};
 use crate::Args;
+use serde_json::{json, Value as J};
+use std::collections::{BTreeMap, BTreeSet};
+use std::path::{Path, PathBuf};
+use std::time::Instant;
+use turdb::{Database, ExecuteResult, OwnedValue};
 
-pub fn run(_a: &Args) -> i32 {
-    println!("INCONCLUSIVE property=C42 reason=check not implemented yet");
-    2
+// ------------------------------------------------------------------------------------------------
+// configurations
+// ------------------------------------------------------------------------------------------------
+
+/// one explicitly issued pragma
+#[derive(Clone, Debug, PartialEq, Eq, Hash, PartialOrd, Ord)]
+struct Pragma {
+    name: &'static str,
+    /// value as issued
+    value: String,
+    /// value as it appears in signatures ("tiny" instead of the number)
+    sigval: String,
+}
+
+impl Pragma {
+    fn sql(&self) -> String {
+        format!("PRAGMA {} = {}", self.name, self.value)
+    }
+    fn sig(&self) -> String {
+        format!("{}={}", self.name, self.sigval)
+    }
+}
+
+#[derive(Clone, Copy, Debug, PartialEq, Eq, Hash)]
+struct Cfg {
+    wal: bool,
+    /// 0 OFF, 1 NORMAL, 2 FULL
+    sync: u8,
+    autoflush: bool,
+    tiny: bool,
+}
+
+impl Cfg {
+    /// pragmas in the order they are issued: wal first (creates the WAL object when ON), synchronous (creates the
+    /// WAL object in any case), threshold (silently ignored when no WAL object exists), autoflush.
+    fn pragmas(&self, tiny_val: u32) -> Vec<Pragma> {
+        let mut v = vec![];
+        let onoff = |b: bool| if b { "ON" } else { "OFF" }.to_string();
+        v.push(Pragma { name: "wal", value: onoff(self.wal), sigval: onoff(self.wal) });
+        let s = ["OFF", "NORMAL", "FULL"][self.sync as usize].to_string();
+        v.push(Pragma { name: "synchronous", value: s.clone(), sigval: s });
+        if self.tiny {
+            v.push(Pragma { name: "wal_checkpoint_threshold", value: tiny_val.to_string(), sigval: "tiny".into() });
+        }
+        v.push(Pragma { name: "wal_autoflush", value: onoff(self.autoflush), sigval: onoff(self.autoflush) });
+        v
+    }
+    fn label(&self) -> String {
+        format!("wal={},synchronous={},wal_autoflush={},wal_checkpoint_threshold={}", if self.wal { "ON" } else { "OFF" }, ["OFF", "NORMAL", "FULL"][self.sync as usize], if self.autoflush { "ON" } else { "OFF" }, if self.tiny { "tiny" } else { "default" })
+    }
+}
+
+fn all_cfgs() -> Vec<Cfg> {
+    let mut v = vec![];
+    for wal in [false, true] {
+        for sync in [2u8, 1, 0] {
+            for autoflush in [true, false] {
+                for tiny in [false, true] {
+                    v.push(Cfg { wal, sync, autoflush, tiny });
+                }
+            }
+        }
+    }
+    v
+}
+
+/// `n` configurations that together cover every value of every pragma; at least n-2 of them with WAL on
+fn pick_cfgs(rng: &mut Rng, n: usize) -> Vec<Cfg> {
+    let all = all_cfgs();
+    loop {
+        let mut idx: Vec<usize> = (0..all.len()).collect();
+        rng.shuffle(&mut idx);
+        let pick: Vec<Cfg> = idx.iter().take(n).map(|&i| all[i]).collect();
+        let cover = pick.iter().any(|c| c.wal)
+            && pick.iter().any(|c| !c.wal)
+            && (0..3).all(|s| pick.iter().any(|c| c.sync == s))
+            && pick.iter().any(|c| c.autoflush)
+            && pick.iter().any(|c| !c.autoflush)
+            && pick.iter().any(|c| c.tiny)
+            && pick.iter().any(|c| !c.tiny);
+        let wal_on = pick.iter().filter(|c| c.wal).count();
+        // the interesting interactions all need WAL on: cover sync/autoflush/threshold values there too
+        let cover_on = (0..3).all(|s| pick.iter().any(|c| c.wal && c.sync == s)) && pick.iter().any(|c| c.wal && !c.autoflush) && pick.iter().any(|c| c.wal && c.tiny) && pick.iter().any(|c| c.wal && !c.tiny);
+        if cover && cover_on && wal_on + 2 >= n {
+            return pick;
+        }
+    }
+}
+
+// ------------------------------------------------------------------------------------------------
+// histories
+// ------------------------------------------------------------------------------------------------
+
+#[derive(Clone, Debug)]
+enum St {
+    /// plain SQL through Database::execute; `seq`: result rows compared as a sequence (ORDER BY covers the pk)
+    Sql { kind: &'static str, sql: String, seq: bool },
+    /// prepared INSERT executed once per row through execute_with_cached_plan (first execution builds the cached
+    /// plan, later ones go through Database::insert_cached - the only consumer of wal_autoflush)
+    Prep { sql: String, rows: Vec<Row> },
+    /// clean close + open + pragmas re-issued
+    Reopen,
+}
+
+impl St {
+    fn kind(&self) -> &'static str {
+        match self {
+            St::Sql { kind, .. } => kind,
+            St::Prep { .. } => "prepared_insert",
+            St::Reopen => "reopen",
+        }
+    }
+    fn text(&self) -> String {
+        match self {
+            St::Sql { sql, .. } => sql.clone(),
+            St::Prep { sql, rows } => format!("PREPARED {} x{} [{}]", sql, rows.len(), rows.iter().map(|r| format!("({})", r.iter().map(|v| short(&v.sql())).collect::<Vec<_>>().join(","))).collect::<Vec<_>>().join(" ")),
+            St::Reopen => "-- close cleanly, reopen, re-issue pragmas".into(),
+        }
+    }
+}
+
+fn short(s: &str) -> String {
+    if s.len() > 40 {
+        format!("{}..({}B)'", &s[..24], s.len() - 2)
+    } else {
+        s.to_string()
+    }
+}
+
+#[derive(Clone, Debug)]
+struct TableInfo {
+    name: String,
+    has_k_index: bool,
+    has_u: bool,
+    /// probe constants collected by the generator
+    ids: BTreeSet<i64>,
+    us: BTreeSet<String>,
+}
+
+#[derive(Clone, Debug)]
+struct Hist {
+    tables: Vec<TableInfo>,
+    stmts: Vec<St>,
+    /// close() + drop, or drop only (both are clean closes)
+    explicit_close: bool,
+    tiny_val: u32,
+}
+
+const K_DOMAIN: i64 = 6;
+
+struct Gen<'a> {
+    rng: &'a mut Rng,
+    tables: Vec<TableInfo>,
+    next_id: Vec<i64>,
+    stmts: Vec<St>,
+    serial: usize,
+    st: Strata,
+}
+
+impl<'a> Gen<'a> {
+    fn payload(&mut self, tag: &str) -> String {
+        // self-identifying text; a length stratum decides how many pages a statement dirties
+        let len = match self.rng.below(10) {
+            0..=4 => self.rng.usize(0, 24),
+            5..=7 => self.rng.usize(100, 500),
+            8 if self.st.big => self.rng.usize(900, 1100),
+            9 if self.st.big => self.rng.usize(1500, 3500),
+            _ => self.rng.usize(20, 200),
+        };
+        let mut s = tag.to_string();
+        let fill = (b'a' + self.rng.below(26) as u8) as char;
+        while s.len() < len {
+            s.push(fill);
+        }
+        s
+    }
+    fn pred(&mut self, t: usize) -> String {
+        let hi = self.next_id[t].max(4);
+        match self.rng.below(8) {
+            0 | 1 => format!("id = {}", self.rng.range(0, hi)),
+            2 => format!("k = {}", self.rng.range(0, K_DOMAIN - 1)),
+            3 => {
+                let a = self.rng.range(0, hi);
+                format!("id BETWEEN {} AND {}", a, a + self.rng.range(0, 12))
+            }
+            4 => "n IS NULL".into(),
+            5 => format!("k < {}", self.rng.range(1, K_DOMAIN)),
+            6 => format!("id > {}", self.rng.range(0, hi)),
+            _ => format!("n >= {} AND k <> {}", self.rng.range(0, 5), self.rng.range(0, K_DOMAIN - 1)),
+        }
+    }
+    fn row(&mut self, t: usize) -> Row {
+        self.serial += 1;
+        let id = if self.rng.chance(1, 8) && self.next_id[t] > 0 {
+            self.rng.range(0, self.next_id[t] - 1) // probably a pk collision
+        } else {
+            self.next_id[t] += 1;
+            self.next_id[t] - 1
+        };
+        self.tables[t].ids.insert(id);
+        let k = self.rng.range(0, K_DOMAIN - 1);
+        let u = if self.rng.chance(1, 25) && !self.tables[t].us.is_empty() {
+            let us: Vec<&String> = self.tables[t].us.iter().collect();
+            (*self.rng.pick(&us)).clone()
+        } else {
+            format!("u{}_{}", t, self.serial)
+        };
+        self.tables[t].us.insert(u.clone());
+        let v = {
+            let tag = format!("v{}_{}_", t, self.serial);
+            self.payload(&tag)
+        };
+        let n = if self.rng.chance(1, 5) { V::Null } else { V::Int(self.rng.range(0, 9)) };
+        vec![V::Int(id), V::Int(k), V::Text(u), V::Text(v), n]
+    }
+    fn push(&mut self, kind: &'static str, sql: String) {
+        self.stmts.push(St::Sql { kind, sql, seq: false });
+    }
+    fn dml(&mut self, t: usize) {
+        let name = self.tables[t].name.clone();
+        match self.rng.below(20) {
+            0..=7 => {
+                let n = if self.rng.chance(1, 6) { self.rng.usize(10, 40) } else { self.rng.usize(1, 6) };
+                let rows: Vec<Row> = (0..n).map(|_| self.row(t)).collect();
+                let vals = rows.iter().map(|r| format!("({})", r.iter().map(|v| v.sql()).collect::<Vec<_>>().join(", "))).collect::<Vec<_>>().join(", ");
+                self.push("insert", format!("INSERT INTO {} (id, k, u, v, n) VALUES {}", name, vals));
+            }
+            8..=10 if self.st.prepared => {
+                let n = self.rng.usize(2, 10);
+                let rows: Vec<Row> = (0..n).map(|_| self.row(t)).collect();
+                self.stmts.push(St::Prep { sql: format!("INSERT INTO {} VALUES (?, ?, ?, ?, ?)", name), rows });
+            }
+            8..=15 => {
+                self.serial += 1;
+                let p = self.pred(t);
+                let set = match self.rng.below(5) {
+                    0 => format!("k = {}", self.rng.range(0, K_DOMAIN - 1)),
+                    1 => "n = n + 1".to_string(),
+                    2 => {
+                        let tag = format!("w{}_{}_", t, self.serial);
+                        format!("v = '{}'", self.payload(&tag))
+                    }
+                    3 => {
+                        let tag = format!("w{}_{}_", t, self.serial);
+                        format!("k = k + 1, v = '{}'", self.payload(&tag))
+                    }
+                    _ => "n = NULL".to_string(),
+                };
+                self.push("update", format!("UPDATE {} SET {} WHERE {}", name, set, p));
+            }
+            16..=18 => {
+                let p = self.pred(t);
+                self.push("delete", format!("DELETE FROM {} WHERE {}", name, p));
+            }
+            _ => {
+                if self.st.truncate {
+                    self.push("truncate", format!("TRUNCATE TABLE {}", name));
+                } else {
+                    let p = self.pred(t);
+                    self.push("delete", format!("DELETE FROM {} WHERE {}", name, p));
+                }
+            }
+        }
+    }
+    fn select(&mut self, t: usize) {
+        let name = self.tables[t].name.clone();
+        match self.rng.below(6) {
+            0 | 1 => {
+                let p = self.pred(t);
+                let desc = if self.rng.chance(1, 3) { " DESC" } else { "" };
+                self.stmts.push(St::Sql { kind: "select_ordered", sql: format!("SELECT id, k, u, n FROM {} WHERE {} ORDER BY id{}", name, p, desc), seq: true });
+            }
+            2 => {
+                let k = self.rng.range(0, K_DOMAIN - 1);
+                self.push("select_where", format!("SELECT * FROM {} WHERE k = {}", name, k));
+            }
+            3 => {
+                let p = self.pred(t);
+                self.push("select_aggregate", format!("SELECT COUNT(*), SUM(k), MIN(id), MAX(id) FROM {} WHERE {}", name, p));
+            }
+            4 => self.push("select_aggregate", format!("SELECT k, COUNT(*) FROM {} GROUP BY k", name)),
+            _ => self.push("select_aggregate", format!("SELECT COUNT(*) FROM {}", name)),
+        }
+    }
+}
+
+/// per-history feature strata: each history draws a small random subset, so most histories are free of any given
+/// defective feature and stay fully sensitive to the others
+#[derive(Clone, Copy, Debug)]
+struct Strata {
+    txn: bool,
+    rollback: bool,
+    savepoint: bool,
+    checkpoint: bool,
+    checkpoint_in_txn: bool,
+    reopen: bool,
+    prepared: bool,
+    truncate: bool,
+    big: bool,
+}
+
+fn gen_history(rng: &mut Rng, max_stmts: usize) -> Hist {
+    let ntables = rng.usize(1, 3);
+    let txn = rng.chance(3, 4);
+    let st = Strata {
+        txn,
+        rollback: txn && rng.chance(3, 5),
+        savepoint: txn && rng.chance(1, 4),
+        checkpoint: rng.chance(2, 5),
+        checkpoint_in_txn: txn && rng.chance(1, 6),
+        reopen: rng.chance(2, 5),
+        prepared: rng.chance(1, 2),
+        truncate: rng.chance(2, 5),
+        big: rng.chance(1, 2),
+    };
+    let mut g = Gen { rng, tables: vec![], next_id: vec![], stmts: vec![], serial: 0, st };
+    for t in 0..ntables {
+        let has_u = g.rng.chance(3, 4);
+        let has_k_index = g.rng.chance(4, 5);
+        let name = format!("t{}", t);
+        g.push("create_table", format!("CREATE TABLE {} (id BIGINT PRIMARY KEY, k BIGINT, u TEXT{}, v TEXT, n BIGINT)", name, if has_u { " UNIQUE" } else { "" }));
+        g.tables.push(TableInfo { name: name.clone(), has_k_index, has_u, ids: BTreeSet::new(), us: BTreeSet::new() });
+        g.next_id.push(0);
+        if has_k_index && g.rng.chance(2, 3) {
+            g.push("create_index", format!("CREATE INDEX ix_{}_k ON {} (k)", name, name));
+        }
+    }
+    // index created mid-history for the rest
+    let mut late_index: Vec<usize> = (0..ntables).filter(|&t| g.tables[t].has_k_index && !g.stmts.iter().any(|s| s.text().contains(&format!("ix_t{}_k", t)))).collect();
+    let target = g.rng.usize(max_stmts / 2, max_stmts);
+    while g.stmts.len() < target {
+        let t = g.rng.below(ntables as u64) as usize;
+        match g.rng.below(24) {
+            0..=9 => g.dml(t),
+            10..=13 => g.select(t),
+            14..=17 if st.txn => {
+                // transaction block
+                g.push("begin", "BEGIN".into());
+                let n = g.rng.usize(1, 6);
+                let mut sp = false;
+                for _ in 0..n {
+                    let t2 = g.rng.below(ntables as u64) as usize;
+                    if g.rng.chance(1, 4) {
+                        g.select(t2);
+                    } else {
+                        g.dml(t2);
+                    }
+                    if st.checkpoint_in_txn && g.rng.chance(1, 5) {
+                        g.push("checkpoint", "PRAGMA wal_checkpoint".into());
+                    }
+                    if st.savepoint {
+                        if !sp && g.rng.chance(1, 3) {
+                            g.push("savepoint", "SAVEPOINT s1".into());
+                            sp = true;
+                        } else if sp && g.rng.chance(1, 3) {
+                            g.push("rollback_to", "ROLLBACK TO s1".into());
+                        }
+                    }
+                }
+                if !st.rollback || g.rng.chance(3, 5) {
+                    g.push("commit", "COMMIT".into());
+                } else {
+                    g.push("rollback", "ROLLBACK".into());
+                }
+                if g.rng.chance(1, 2) {
+                    g.select(t);
+                }
+            }
+            18 | 19 if st.checkpoint => g.push("checkpoint", "PRAGMA wal_checkpoint".into()),
+            20 if st.reopen => g.stmts.push(St::Reopen),
+            21 => {
+                if let Some(t) = late_index.pop() {
+                    let name = g.tables[t].name.clone();
+                    g.push("create_index", format!("CREATE INDEX ix_{}_k ON {} (k)", name, name));
+                } else {
+                    g.dml(t);
+                }
+            }
+            14..=20 => g.dml(t),
+            _ => g.select(t),
+        }
+    }
+    let explicit_close = g.rng.chance(1, 2);
+    let tiny_val = g.rng.range(2, 10) as u32;
+    Hist { tables: g.tables, stmts: g.stmts, explicit_close, tiny_val }
+}
+
+// ------------------------------------------------------------------------------------------------
+// trigger features of a history and their knock-outs (used to name the cause in the signature)
+// ------------------------------------------------------------------------------------------------
+
+const FEATURES: [&str; 9] = ["checkpoint_in_txn", "checkpoint", "reopen", "truncate", "prepared_insert", "savepoint", "rollback", "txn", "secondary_index"];
+
+/// for each statement: is it (statically) inside a BEGIN..COMMIT/ROLLBACK block
+fn in_txn_flags(stmts: &[St]) -> Vec<bool> {
+    let mut v = vec![];
+    let mut inside = false;
+    for s in stmts {
+        match s.kind() {
+            "begin" => {
+                v.push(false);
+                inside = true;
+            }
+            "commit" | "rollback" => {
+                v.push(false);
+                inside = false;
+            }
+            _ => v.push(inside),
+        }
+    }
+    v
+}
+
+fn has_feature(h: &Hist, f: &str) -> bool {
+    let flags = in_txn_flags(&h.stmts);
+    h.stmts.iter().enumerate().any(|(i, s)| match f {
+        "checkpoint_in_txn" => s.kind() == "checkpoint" && flags[i],
+        "checkpoint" => s.kind() == "checkpoint" && !flags[i],
+        "reopen" => s.kind() == "reopen",
+        "truncate" => s.kind() == "truncate",
+        "prepared_insert" => s.kind() == "prepared_insert",
+        "savepoint" => matches!(s.kind(), "savepoint" | "rollback_to"),
+        "rollback" => s.kind() == "rollback",
+        "txn" => matches!(s.kind(), "begin" | "commit" | "rollback"),
+        "secondary_index" => s.kind() == "create_index",
+        _ => false,
+    })
+}
+
+/// the same history without the feature (same data flow where possible: a prepared burst becomes plain INSERTs,
+/// ROLLBACK becomes COMMIT, transaction control is dropped)
+fn knock_out(h: &Hist, f: &str) -> Hist {
+    let flags = in_txn_flags(&h.stmts);
+    let mut out: Vec<St> = vec![];
+    for (i, s) in h.stmts.iter().enumerate() {
+        let k = s.kind();
+        match f {
+            "checkpoint_in_txn" if k == "checkpoint" && flags[i] => {}
+            "checkpoint" if k == "checkpoint" && !flags[i] => {}
+            "reopen" if k == "reopen" => {}
+            "truncate" if k == "truncate" => {}
+            "prepared_insert" if k == "prepared_insert" => {
+                if let St::Prep { sql, rows } = s {
+                    let table = sql.split_whitespace().nth(2).unwrap_or("t0");
+                    for r in rows {
+                        out.push(St::Sql { kind: "insert", sql: format!("INSERT INTO {} VALUES ({})", table, r.iter().map(|v| v.sql()).collect::<Vec<_>>().join(", ")), seq: false });
+                    }
+                }
+            }
+            "savepoint" if matches!(k, "savepoint" | "rollback_to") => {}
+            "rollback" if k == "rollback" => out.push(St::Sql { kind: "commit", sql: "COMMIT".into(), seq: false }),
+            "txn" if matches!(k, "begin" | "commit" | "rollback" | "savepoint" | "rollback_to") => {}
+            "secondary_index" if k == "create_index" => {}
+            _ => out.push(s.clone()),
+        }
+    }
+    Hist { stmts: out, ..h.clone() }
+}
+
+// ------------------------------------------------------------------------------------------------
+// execution + observation
+// ------------------------------------------------------------------------------------------------
+
+/// what was observed for one statement / probe
+#[derive(Clone, Debug, PartialEq)]
+struct Obs {
+    /// "ok" | "error:<class>" | "panic:<file:line>" | "skipped"
+    status: String,
+    n: Option<usize>,
+    /// row keys (sorted when compared as a bag)
+    rows: Option<Vec<String>>,
+    /// raw message for the replay file
+    msg: Option<String>,
+}
+
+impl Obs {
+    fn ok() -> Obs {
+        Obs { status: "ok".into(), n: None, rows: None, msg: None }
+    }
+    fn skipped() -> Obs {
+        Obs { status: "skipped".into(), n: None, rows: None, msg: None }
+    }
+    fn err(e: &str) -> Obs {
+        Obs { status: format!("error:{}", err_class(e)), n: None, rows: None, msg: Some(e.chars().take(300).collect()) }
+    }
+    fn panic(p: &str) -> Obs {
+        let site = crate::report::panic_site(p);
+        let site = site.rsplit('/').next().unwrap_or("").to_string();
+        Obs { status: format!("panic:{}", site), n: None, rows: None, msg: Some(p.chars().take(300).collect()) }
+    }
+    fn json(&self) -> J {
+        json!({"status": self.status, "rows_affected": self.n, "rows": self.rows.as_ref().map(|r| r.iter().take(12).map(|s| short_key(s)).collect::<Vec<_>>()), "nrows": self.rows.as_ref().map(|r| r.len()), "msg": self.msg})
+    }
+}
+
+fn short_key(s: &str) -> String {
+    let s = s.replace('\u{1}', "|");
+    if s.len() > 120 {
+        format!("{}..({}B)", &s[..100], s.len())
+    } else {
+        s
+    }
+}
+
+/// stable class of an error message: first words, letters only, table/index names and digits removed
+fn err_class(e: &str) -> String {
+    e.split(|c: char| !c.is_ascii_alphabetic()).filter(|w| !w.is_empty()).take(6).collect::<Vec<_>>().join("_").to_lowercase()
+}
+
+fn rows_obs(rows: &[turdb::Row], seq: bool) -> Vec<String> {
+    let mut keys: Vec<String> = conv_rows(rows).iter().map(|r| row_key(r, false)).collect();
+    if !seq {
+        keys.sort();
+    }
+    keys
+}
+
+fn obs_of(r: Result<eyre::Result<ExecuteResult>, String>, seq: bool) -> Obs {
+    match r {
+        Err(p) => Obs::panic(&p),
+        Ok(Err(e)) => Obs::err(&format!("{:#}", e)),
+        Ok(Ok(res)) => match res {
+            ExecuteResult::Insert { rows_affected, returned } | ExecuteResult::Update { rows_affected, returned } | ExecuteResult::Delete { rows_affected, returned } => Obs { status: "ok".into(), n: Some(rows_affected), rows: returned.map(|r| rows_obs(&r, false)), msg: None },
+            ExecuteResult::Truncate { rows_affected } => Obs { status: "ok".into(), n: Some(rows_affected), rows: None, msg: None },
+            ExecuteResult::Select { rows, .. } => Obs { status: "ok".into(), n: None, rows: Some(rows_obs(&rows, seq)), msg: None },
+            _ => Obs::ok(),
+        },
+    }
+}
+
+struct Handle {
+    db: Option<Database>,
+    path: PathBuf,
+    pragmas: Vec<Pragma>,
+    explicit_close: bool,
+    in_txn: bool,
+    wal_cfg: bool,
+    // measurements
+    max_frames: u64,
+    frame_drops: u64,
+    last_frames: u64,
+    rotations: u64,
+    pragma_errs: Vec<(String, Obs)>,
+}
+
+impl Handle {
+    fn create(path: &Path, pragmas: &[Pragma], explicit_close: bool) -> Result<Handle, Obs> {
+        let db = match catch(|| Database::create(path)) {
+            Ok(Ok(db)) => db,
+            Ok(Err(e)) => return Err(Obs::err(&format!("{:#}", e))),
+            Err(p) => return Err(Obs::panic(&p)),
+        };
+        let wal_cfg = pragmas.iter().any(|p| p.name == "wal" && p.value == "ON");
+        let mut h = Handle { db: Some(db), path: path.to_path_buf(), pragmas: pragmas.to_vec(), explicit_close, in_txn: false, wal_cfg, max_frames: 0, frame_drops: 0, last_frames: 0, rotations: 0, pragma_errs: vec![] };
+        h.issue_pragmas();
+        Ok(h)
+    }
+    fn issue_pragmas(&mut self) {
+        for p in self.pragmas.clone() {
+            let o = self.exec(&p.sql(), false);
+            if o.status != "ok" {
+                self.pragma_errs.push((p.sig(), o));
+            }
+        }
+    }
+    fn exec(&mut self, sql: &str, seq: bool) -> Obs {
+        match self.db.as_ref() {
+            None => Obs::skipped(),
+            Some(db) => obs_of(catch(|| db.execute(sql)), seq),
+        }
+    }
+    /// `PRAGMA wal_frame_count` (read-only) to measure that frames were written / checkpointed away
+    fn sample_frames(&mut self) {
+        if !self.wal_cfg {
+            return;
+        }
+        if let Some(db) = self.db.as_ref() {
+            if let Ok(Ok(ExecuteResult::Pragma { value: Some(v), .. })) = catch(|| db.execute("PRAGMA wal_frame_count")) {
+                if let Ok(n) = v.parse::<u64>() {
+                    if n < self.last_frames {
+                        self.frame_drops += 1;
+                    }
+                    self.last_frames = n;
+                    self.max_frames = self.max_frames.max(n);
+                }
+            }
+        }
+    }
+    /// highest WAL segment number on disk; every Database-level checkpoint (explicit pragma or automatic at the
+    /// threshold) rotates to a new segment, so (max - 1) counts the checkpoints that really happened
+    fn wal_max_seq(&self) -> u64 {
+        let mut m = 0u64;
+        if let Ok(rd) = std::fs::read_dir(self.path.join("wal")) {
+            for e in rd.flatten() {
+                let n = e.file_name().to_string_lossy().to_string();
+                if n.starts_with("wal.") && n.len() == 10 {
+                    m = m.max(n[4..].parse::<u64>().unwrap_or(0));
+                }
+            }
+        }
+        m
+    }
+    fn close(&mut self) -> Obs {
+        self.rotations = self.rotations.max(self.wal_max_seq().saturating_sub(1));
+        let mut out = Obs::ok();
+        if let Some(db) = self.db.take() {
+            let explicit = self.explicit_close;
+            match catch(move || {
+                let r = if explicit { db.close().map(|_| ()) } else { Ok(()) };
+                drop(db);
+                r
+            }) {
+                Ok(Ok(())) => {}
+                Ok(Err(e)) => out = Obs::err(&format!("close: {:#}", e)),
+                Err(p) => out = Obs::panic(&p),
+            }
+        }
+        self.in_txn = false;
+        self.last_frames = 0;
+        out
+    }
+    fn reopen(&mut self, with_pragmas: bool) -> Obs {
+        if self.in_txn {
+            let _ = self.exec("COMMIT", false);
+            self.in_txn = false;
+        }
+        let c = self.close();
+        if c.status != "ok" {
+            return c;
+        }
+        let path = self.path.clone();
+        match catch(|| Database::open(&path)) {
+            Ok(Ok(db)) => {
+                self.db = Some(db);
+                if with_pragmas {
+                    self.issue_pragmas();
+                }
+                Obs::ok()
+            }
+            Ok(Err(e)) => Obs::err(&format!("open: {:#}", e)),
+            Err(p) => Obs::panic(&p),
+        }
+    }
+    fn run_stmt(&mut self, st: &St) -> Obs {
+        let o = match st {
+            St::Sql { kind, sql, seq } => {
+                let o = self.exec(sql, *seq);
+                if o.status == "ok" {
+                    match *kind {
+                        "begin" => self.in_txn = true,
+                        "commit" | "rollback" => self.in_txn = false,
+                        _ => {}
+                    }
+                }
+                // the value of PRAGMA wal_checkpoint (frames checkpointed) legitimately depends on the configuration
+                o
+            }
+            St::Prep { sql, rows } => match self.db.as_ref() {
+                None => Obs::skipped(),
+                Some(db) => match catch(|| db.prepare(sql)) {
+                    Err(p) => Obs::panic(&p),
+                    Ok(Err(e)) => Obs::err(&format!("{:#}", e)),
+                    Ok(Ok(ps)) => {
+                        let mut okc = 0usize;
+                        let mut first_bad: Option<Obs> = None;
+                        for r in rows {
+                            let params: Vec<OwnedValue> = r.iter().map(|v| v.to_owned_value()).collect();
+                            let o = obs_of(catch(|| db.execute_with_cached_plan(&ps, &params)), false);
+                            if o.status == "ok" {
+                                okc += o.n.unwrap_or(0);
+                            } else if first_bad.is_none() {
+                                first_bad = Some(o);
+                            }
+                        }
+                        let mut o = first_bad.unwrap_or_else(Obs::ok);
+                        o.n = Some(okc);
+                        o
+                    }
+                },
+            },
+            St::Reopen => self.reopen(true),
+        };
+        self.sample_frames();
+        o
+    }
+}
+
+#[derive(Clone, Debug, Default)]
+struct RunOut {
+    create: Option<Obs>,
+    pragma_errs: Vec<(String, Obs)>,
+    outs: Vec<Obs>,
+    fin: Vec<(String, String, Obs)>,
+    reopen: Option<Obs>,
+    after: Vec<(String, String, Obs)>,
+    max_frames: u64,
+    frame_drops: u64,
+    /// WAL segment rotations seen before the final close (= checkpoints that ran during the history)
+    rotations: u64,
+}
+
+/// final-state observation vector: (label, sql, obs)
+fn observe(h: &mut Handle, tables: &[TableInfo]) -> Vec<(String, String, Obs)> {
+    let mut v = vec![];
+    let mut q = |h: &mut Handle, label: &str, sql: String, seq: bool| {
+        let o = h.exec(&sql, seq);
+        v.push((label.to_string(), sql, o));
+    };
+    for t in tables {
+        q(h, "rows", format!("SELECT * FROM {}", t.name), false);
+        q(h, "count_star", format!("SELECT COUNT(*) FROM {}", t.name), false);
+        q(h, "rows", format!("SELECT id FROM {} ORDER BY id", t.name), true);
+        for k in 0..=K_DOMAIN {
+            q(h, "index_lookup", format!("SELECT id, u FROM {} WHERE k = {}", t.name, k), false);
+        }
+        // pk probes: a spread of the ids the generator ever used (deleted ones included)
+        let ids: Vec<i64> = t.ids.iter().copied().collect();
+        let step = (ids.len() / 10).max(1);
+        for id in ids.iter().step_by(step) {
+            q(h, "index_lookup", format!("SELECT id, k, u, n FROM {} WHERE id = {}", t.name, id), false);
+        }
+        if t.has_u {
+            let us: Vec<&String> = t.us.iter().collect();
+            let step = (us.len() / 8).max(1);
+            for u in us.iter().step_by(step) {
+                q(h, "index_lookup", format!("SELECT id, k FROM {} WHERE u = '{}'", t.name, u), false);
+            }
+        }
+    }
+    v
+}
+
+fn run_history(dir: &Path, h: &Hist, pragmas: &[Pragma]) -> RunOut {
+    let _ = std::fs::remove_dir_all(dir);
+    let mut out = RunOut::default();
+    let mut hd = match Handle::create(dir, pragmas, h.explicit_close) {
+        Ok(hd) => hd,
+        Err(o) => {
+            out.create = Some(o);
+            return out;
+        }
+    };
+    for st in &h.stmts {
+        let o = hd.run_stmt(st);
+        out.outs.push(o);
+    }
+    if hd.in_txn {
+        let _ = hd.exec("COMMIT", false);
+        hd.in_txn = false;
+    }
+    out.fin = observe(&mut hd, &h.tables);
+    out.rotations = hd.rotations.max(hd.wal_max_seq().saturating_sub(1));
+    // what persists: clean close, reopen WITHOUT any pragma (default configuration), observe again
+    let r = hd.reopen(false);
+    if r.status == "ok" {
+        out.after = observe(&mut hd, &h.tables);
+    }
+    out.reopen = Some(r);
+    out.pragma_errs = hd.pragma_errs.clone();
+    out.max_frames = hd.max_frames;
+    out.frame_drops = hd.frame_drops;
+    let _ = hd.close();
+    let _ = std::fs::remove_dir_all(dir);
+    out
+}
+
+/// the first difference between the baseline run and a configured run
+#[derive(Clone, Debug)]
+struct Diff {
+    /// statement kind or observation
+    kind: String,
+    /// rows | rows_affected | error:<class> | ... | count_star | index_lookup | after_reopen
+    what: String,
+    /// index into the history (statement diffs only)
+    at: Option<usize>,
+    sql: String,
+    base: J,
+    got: J,
+}
+
+fn diff_obs(a: &Obs, b: &Obs) -> Option<String> {
+    if a.status != b.status {
+        if b.status.starts_with("panic:") || b.status.starts_with("error:") {
+            return Some(b.status.clone());
+        }
+        if a.status.starts_with("error:") || a.status.starts_with("panic:") {
+            return Some(format!("no_{}", a.status));
+        }
+        return Some(format!("status:{}", b.status));
+    }
+    if a.n != b.n {
+        return Some("rows_affected".into());
+    }
+    if a.rows != b.rows {
+        return Some("rows".into());
+    }
+    None
+}
+
+fn first_diff(h: &Hist, a: &RunOut, b: &RunOut) -> Option<Diff> {
+    if let Some(o) = &b.create {
+        return Some(Diff { kind: "create_database".into(), what: o.status.clone(), at: None, sql: "Database::create".into(), base: json!(a.create.as_ref().map(|x| x.json())), got: o.json() });
+    }
+    if let Some((p, o)) = b.pragma_errs.first() {
+        return Some(Diff { kind: "pragma".into(), what: o.status.clone(), at: None, sql: p.clone(), base: J::Null, got: o.json() });
+    }
+    for (i, st) in h.stmts.iter().enumerate() {
+        match (a.outs.get(i), b.outs.get(i)) {
+            (Some(x), Some(y)) => {
+                if let Some(w) = diff_obs(x, y) {
+                    return Some(Diff { kind: st.kind().to_string(), what: w, at: Some(i), sql: st.text(), base: x.json(), got: y.json() });
+                }
+            }
+            _ => return None,
+        }
+    }
+    for (x, y) in a.fin.iter().zip(b.fin.iter()) {
+        if let Some(w) = diff_obs(&x.2, &y.2) {
+            let what = if w == "rows" || w == "rows_affected" { x.0.clone() } else { w };
+            return Some(Diff { kind: "final_state".into(), what, at: None, sql: x.1.clone(), base: x.2.json(), got: y.2.json() });
+        }
+    }
+    if let (Some(x), Some(y)) = (&a.reopen, &b.reopen) {
+        if let Some(w) = diff_obs(x, y) {
+            return Some(Diff { kind: "final_reopen".into(), what: w, at: None, sql: "close + Database::open".into(), base: x.json(), got: y.json() });
+        }
+    }
+    for (x, y) in a.after.iter().zip(b.after.iter()) {
+        if let Some(w) = diff_obs(&x.2, &y.2) {
+            let kind = if w == "rows" || w == "rows_affected" { format!("final_{}", x.0) } else { format!("final_{}:{}", x.0, w) };
+            return Some(Diff { kind, what: "after_reopen".into(), at: None, sql: x.1.clone(), base: x.2.json(), got: y.2.json() });
+        }
+    }
+    None
+}
+
+// ------------------------------------------------------------------------------------------------
+// shrinking
+// ------------------------------------------------------------------------------------------------
+
+/// generic ddmin: smallest sub-sequence (order kept) for which `test` still returns true; bounded by `budget` calls
+fn ddmin<T: Clone>(items: &[T], budget: &mut usize, test: &mut dyn FnMut(&[T]) -> bool) -> Vec<T> {
+    let mut cur: Vec<T> = items.to_vec();
+    let mut n = 2usize;
+    while cur.len() >= 2 && *budget > 0 {
+        let chunk = (cur.len() + n - 1) / n;
+        let mut reduced = false;
+        let mut start = 0;
+        while start < cur.len() && *budget > 0 {
+            let end = (start + chunk).min(cur.len());
+            let cand: Vec<T> = cur[..start].iter().chain(cur[end..].iter()).cloned().collect();
+            *budget -= 1;
+            if !cand.is_empty() && test(&cand) {
+                cur = cand;
+                n = (n - 1).max(2);
+                reduced = true;
+                break;
+            }
+            start = end;
+        }
+        if !reduced {
+            if n >= cur.len() {
+                break;
+            }
+            n = (n * 2).min(cur.len());
+        }
+    }
+    cur
+}
+
+/// result of the cheap cause analysis of one failing (history, configuration)
+struct Analysis {
+    /// history after the knock-outs that kept the failure
+    hist: Hist,
+    /// baseline (no pragma) run of `hist`
+    base: RunOut,
+    pragmas: Vec<Pragma>,
+    diff: Diff,
+    /// trigger features still present (each one is needed: knocking it out made this difference disappear)
+    features: Vec<&'static str>,
+    runs: usize,
+}
+
+fn same(d: &Option<Diff>, want: &(String, String)) -> bool {
+    d.as_ref().map(|d| d.kind == want.0 && d.what == want.1).unwrap_or(false)
+}
+
+/// drop pragmas one at a time, then knock out trigger features one at a time (cumulatively), keeping the same
+/// (kind, what) first difference against the baseline run of the same history
+fn analyse(dir_a: &Path, dir_b: &Path, h: &Hist, base: &RunOut, pragmas: &[Pragma], d0: &Diff) -> Analysis {
+    let want = (d0.kind.clone(), d0.what.clone());
+    let mut runs = 0usize;
+    let mut cur_h = h.clone();
+    let mut cur_base = base.clone();
+    let mut cur_p = pragmas.to_vec();
+    let mut cur_d = d0.clone();
+    for round in 0..2 {
+        let mut i = 0;
+        while i < cur_p.len() && cur_p.len() > 1 {
+            let mut cand = cur_p.clone();
+            cand.remove(i);
+            runs += 1;
+            let b = run_history(dir_b, &cur_h, &cand);
+            let d = first_diff(&cur_h, &cur_base, &b);
+            if same(&d, &want) {
+                cur_p = cand;
+                cur_d = d.unwrap();
+            } else {
+                i += 1;
+            }
+        }
+        if round == 1 {
+            break;
+        }
+        for f in FEATURES.iter().copied().chain(["failed_statement", "close_by_drop"]) {
+            let cand = match f {
+                // statements that fail in the baseline too (typically a multi-row INSERT hitting a duplicate key
+                // after some rows went in): drop them
+                "failed_statement" => {
+                    if !cur_base.outs.iter().any(|o| o.status.starts_with("error:")) {
+                        continue;
+                    }
+                    let keep: Vec<St> = cur_h.stmts.iter().enumerate().filter(|(i, _)| !cur_base.outs.get(*i).map(|o| o.status.starts_with("error:")).unwrap_or(false)).map(|(_, s)| s.clone()).collect();
+                    Hist { stmts: keep, ..cur_h.clone() }
+                }
+                "close_by_drop" => {
+                    if cur_h.explicit_close {
+                        continue;
+                    }
+                    Hist { explicit_close: true, ..cur_h.clone() }
+                }
+                _ => {
+                    if !has_feature(&cur_h, f) {
+                        continue;
+                    }
+                    knock_out(&cur_h, f)
+                }
+            };
+            runs += 2;
+            let a = run_history(dir_a, &cand, &[]);
+            let b = run_history(dir_b, &cand, &cur_p);
+            let d = first_diff(&cand, &a, &b);
+            if same(&d, &want) {
+                cur_h = cand;
+                cur_base = a;
+                cur_d = d.unwrap();
+            }
+        }
+    }
+    let mut features: Vec<&'static str> = FEATURES.iter().copied().filter(|f| has_feature(&cur_h, f)).collect();
+    if cur_base.outs.iter().any(|o| o.status.starts_with("error:")) {
+        features.push("failed_statement");
+    }
+    if !cur_h.explicit_close {
+        features.push("close_by_drop");
+    }
+    if features.iter().any(|f| matches!(*f, "checkpoint_in_txn" | "savepoint" | "rollback")) {
+        features.retain(|f| *f != "txn"); // implied
+    }
+    Analysis { hist: cur_h, base: cur_base, pragmas: cur_p, diff: cur_d, features, runs }
+}
+
+/// ddmin over the statements of an analysed history (for a readable replay; the signature is fixed before)
+fn minimise(dir_a: &Path, dir_b: &Path, an: &Analysis, budget: usize) -> (Hist, Diff, usize) {
+    let want = (an.diff.kind.clone(), an.diff.what.clone());
+    let mut runs = 0usize;
+    let mut b = budget;
+    let base = an.hist.clone();
+    let mut best_d = an.diff.clone();
+    let mut test = |c: &[St]| {
+        let hh = Hist { stmts: c.to_vec(), ..base.clone() };
+        runs += 2;
+        let a = run_history(dir_a, &hh, &[]);
+        let r = run_history(dir_b, &hh, &an.pragmas);
+        let d = first_diff(&hh, &a, &r);
+        if same(&d, &want) {
+            best_d = d.unwrap();
+            true
+        } else {
+            false
+        }
+    };
+    let mut s2 = ddmin(&base.stmts, &mut b, &mut test);
+    let mut i = 0;
+    while i < s2.len() && b > 0 && s2.len() > 1 {
+        let mut cand = s2.clone();
+        cand.remove(i);
+        b -= 1;
+        if test(&cand) {
+            s2 = cand;
+        } else {
+            i += 1;
+        }
+    }
+    // the diff for exactly the minimal history
+    let ok = test(&s2.clone());
+    let _ = ok;
+    (Hist { stmts: s2, ..base.clone() }, best_d, runs)
+}
+
+fn sig_of(pragmas: &[Pragma], features: &[&'static str], d: &Diff) -> String {
+    format!("C42/{}/{}/{}/{}", pragmas.iter().map(|p| p.sig()).collect::<Vec<_>>().join("+"), if features.is_empty() { "plain".to_string() } else { features.join("+") }, d.kind, d.what)
+}
+
+/// open known findings of C42 (read-only): a failing case whose cheap signature is already listed is not minimised
+fn known_sigs() -> Vec<String> {
+    let p = format!("{}/known_findings.json", crate::report::VERIF_DIR);
+    let mut out = vec![];
+    if let Ok(t) = std::fs::read_to_string(p) {
+        if let Ok(v) = serde_json::from_str::<J>(&t) {
+            for f in v["findings"].as_array().cloned().unwrap_or_default() {
+                if f["property"] == "C42" && f["status"].as_str().unwrap_or("open") == "open" {
+                    out.push(f["sig"].as_str().unwrap_or("").to_string());
+                }
+            }
+        }
+    }
+    out
+}
+
+fn is_known(known: &[String], sig: &str) -> bool {
+    known.iter().any(|k| k == sig || (k.ends_with('*') && sig.starts_with(&k[..k.len() - 1])))
+}
+
+fn hist_json(h: &Hist) -> J {
+    json!({"statements": h.stmts.iter().map(|s| s.text()).map(|s| if s.len() > 400 { format!("{}..({}B)", &s[..300], s.len()) } else { s }).collect::<Vec<_>>(), "close_style": if h.explicit_close { "Database::close() then drop" } else { "drop only" }, "tiny_threshold": h.tiny_val})
+}
+
+fn hist_full_json(h: &Hist) -> J {
+    json!({"statements": h.stmts.iter().map(|s| match s {
+        St::Sql { sql, .. } => json!(sql),
+        St::Prep { sql, rows } => json!({"prepare": sql, "execute_with_cached_plan_rows": rows.iter().map(|r| r.iter().map(|v| v.to_json()).collect::<Vec<_>>()).collect::<Vec<_>>()}),
+        St::Reopen => json!("<clean close; Database::open; re-issue pragmas>"),
+    }).collect::<Vec<_>>(), "close_style": if h.explicit_close { "Database::close() then drop" } else { "drop only" }, "tiny_threshold": h.tiny_val})
+}
+
+// ------------------------------------------------------------------------------------------------
+// per-history worker
+// ------------------------------------------------------------------------------------------------
+
+/// result of one job (serialised as one JSON line by a worker process, merged by the parent)
+#[derive(Default)]
+struct HistResult {
+    idx: usize,
+    kind: String,
+    evals: u64,
+    nontrivial: Vec<u64>,
+    violations: Vec<(String, String, J)>,
+    /// summed by the parent
+    counters: BTreeMap<String, u64>,
+    /// max-merged by the parent
+    maxima: BTreeMap<String, u64>,
+    sample: Option<J>,
+}
+
+impl HistResult {
+    fn to_json(&self, job: usize) -> J {
+        json!({"job": job, "idx": self.idx, "kind": self.kind, "evals": self.evals, "nontrivial": self.nontrivial.iter().map(|h| format!("{:x}", h)).collect::<Vec<_>>(),
+            "violations": self.violations.iter().map(|(a, s, d)| json!([a, s, d])).collect::<Vec<_>>(), "counters": self.counters, "maxima": self.maxima, "sample": self.sample})
+    }
+}
+
+struct Shared {
+    /// scratch root shared by all worker processes (claim files live here)
+    root: PathBuf,
+    /// how many times one signature may be minimised by ddmin over all workers
+    max_minimise_per_sig: usize,
+    known: Vec<String>,
+    start: Instant,
+    budget_s: f64,
+}
+
+impl Shared {
+    /// cross-process "first one wins" through O_EXCL file creation
+    fn claim(&self, what: &str) -> bool {
+        std::fs::OpenOptions::new().write(true).create_new(true).open(self.root.join(what)).is_ok()
+    }
+    fn claim_minimise(&self, sig: &str) -> bool {
+        (0..self.max_minimise_per_sig).any(|i| self.claim(&format!("claim-sig-{:016x}-{}", fnv(sig.as_bytes()), i)))
+    }
+    fn late(&self, frac: f64) -> bool {
+        self.start.elapsed().as_secs_f64() > self.budget_s * frac
+    }
+}
+
+fn process_history(idx: usize, h: &Hist, cfgs: &[Cfg], sh: &Shared) -> HistResult {
+    let mut res = HistResult { idx, kind: "history".into(), ..Default::default() };
+    let root = &sh.root;
+    let dir_a = root.join(format!("h{}-a", idx));
+    let dir_b = root.join(format!("h{}-b", idx));
+    let base = run_history(&dir_a, h, &[]);
+    res.evals += 1;
+    let hhash = fnv(format!("{:?}", h.stmts.iter().map(|s| s.text()).collect::<Vec<_>>()).as_bytes());
+    if let Some(o) = &base.create {
+        res.violations.push(("baseline".into(), format!("C42/baseline/create_database/{}", o.status), json!({"obs": o.json()})));
+        return res;
+    }
+    let mut bump = |res: &mut HistResult, k: &str, n: u64| *res.counters.entry(k.to_string()).or_insert(0) += n;
+    bump(&mut res, "statements_executed", base.outs.len() as u64);
+    bump(&mut res, "baseline_statements_ok", base.outs.iter().filter(|o| o.status == "ok").count() as u64);
+    bump(&mut res, "baseline_statements_error", base.outs.iter().filter(|o| o.status.starts_with("error:")).count() as u64);
+    bump(&mut res, "baseline_statements_panic", base.outs.iter().filter(|o| o.status.starts_with("panic:")).count() as u64);
+    for f in FEATURES {
+        if has_feature(h, f) {
+            bump(&mut res, &format!("histories_with_{}", f), 1);
+        }
+    }
+    let explicit_rotation = has_feature(h, "checkpoint") || has_feature(h, "checkpoint_in_txn") || has_feature(h, "reopen");
+    let mut seen: BTreeSet<String> = BTreeSet::new();
+    let mut solved: Vec<(Analysis, String)> = vec![];
+    for cfg in cfgs {
+        if sh.late(1.0) {
+            bump(&mut res, "configured_runs_skipped_wall_budget", 1);
+            continue;
+        }
+        let pragmas = cfg.pragmas(h.tiny_val);
+        let run = run_history(&dir_b, h, &pragmas);
+        res.evals += 1;
+        bump(&mut res, "configured_runs", 1);
+        if cfg.wal && run.max_frames > 0 {
+            // the mechanism was exercised: WAL frames were really written under this configuration
+            res.nontrivial.push(hhash ^ fnv(cfg.label().as_bytes()));
+            bump(&mut res, "runs_with_wal_frames", 1);
+        }
+        if cfg.wal && cfg.tiny && !explicit_rotation && run.rotations > 0 {
+            bump(&mut res, "runs_with_auto_checkpoint_at_tiny_threshold", 1);
+        }
+        let d = match first_diff(h, &base, &run) {
+            None => continue,
+            Some(d) => d,
+        };
+        bump(&mut res, "runs_differing_from_baseline", 1);
+        // same cause as something already analysed for this history? (1 run)
+        let mut matched: Option<String> = None;
+        for (an, sig) in &solved {
+            if an.pragmas.iter().all(|p| pragmas.contains(p)) {
+                let b = run_history(&dir_b, &an.hist, &pragmas);
+                let d2 = first_diff(&an.hist, &an.base, &b);
+                if same(&d2, &(an.diff.kind.clone(), an.diff.what.clone())) {
+                    matched = Some(sig.clone());
+                    break;
+                }
+            }
+        }
+        if let Some(sig) = matched {
+            bump(&mut res, "diffs_attributed_to_analysed_cause", 1);
+            if seen.insert(format!("{}|{}", sig, cfg.label())) {
+                res.violations.push(("config_invariance".into(), sig, json!({"config": cfg.label(), "attributed": "the reduced history of this signature (earlier violation of this same history) fails the same way under this configuration", "first_difference": {"kind": d.kind, "what": d.what, "sql": short(&d.sql)}})));
+            }
+            continue;
+        }
+        let an = analyse(&dir_a, &dir_b, h, &base, &pragmas, &d);
+        bump(&mut res, "analysis_runs", an.runs as u64);
+        let sig = sig_of(&an.pragmas, &an.features, &an.diff);
+        let do_min = !is_known(&sh.known, &sig) && !sh.late(0.6) && sh.claim_minimise(&sig);
+        let (min_h, min_d) = if do_min {
+            let (mh, md, r) = minimise(&dir_a, &dir_b, &an, 100);
+            bump(&mut res, "ddmin_runs", r as u64);
+            (mh, md)
+        } else {
+            (an.hist.clone(), an.diff.clone())
+        };
+        let detail = json!({
+            "config": cfg.label(),
+            "pragmas_issued": pragmas.iter().map(|p| p.sql()).collect::<Vec<_>>(),
+            "minimal_pragmas": an.pragmas.iter().map(|p| p.sql()).collect::<Vec<_>>(),
+            "needed_features": an.features,
+            "history_minimised_by_ddmin": do_min,
+            "minimal_history": hist_full_json(&min_h),
+            "first_difference": {"kind": min_d.kind, "what": min_d.what, "statement_index": min_d.at, "sql": min_d.sql, "baseline_no_pragma": min_d.base, "configured": min_d.got},
+            "original_first_difference": {"kind": d.kind, "what": d.what, "statement_index": d.at, "sql": short(&d.sql)},
+            "original_history_len": h.stmts.len(),
+        });
+        res.violations.push(("config_invariance".into(), sig.clone(), detail));
+        solved.push((an, sig));
+    }
+    if idx < 3 {
+        res.sample = Some(json!({"history": hist_json(h), "configs": cfgs.iter().map(|c| c.label()).collect::<Vec<_>>()}));
+    }
+    let _ = std::fs::remove_dir_all(&dir_a);
+    let _ = std::fs::remove_dir_all(&dir_b);
+    res
+}
+
+// ------------------------------------------------------------------------------------------------
+// many-files variant
+// ------------------------------------------------------------------------------------------------
+
+#[derive(Clone, Debug)]
+struct MOp {
+    /// Some(table) = routed to the database owning the table; None = broadcast (BEGIN/COMMIT/ROLLBACK)
+    table: Option<usize>,
+    kind: &'static str,
+    sql: String,
+    seq: bool,
+}
+
+const MF_TABLES: usize = 72;
+const MF_SPLIT: usize = 8;
+
+fn mf_name(i: usize) -> String {
+    format!("m{:02}", i)
+}
+
+fn gen_many_files(rng: &mut Rng, rounds: usize) -> Vec<MOp> {
+    let mut ops: Vec<MOp> = vec![];
+    let mut next_id = vec![1i64; MF_TABLES];
+    let mut live: Vec<Vec<i64>> = vec![vec![]; MF_TABLES];
+    let push = |ops: &mut Vec<MOp>, t: Option<usize>, kind: &'static str, sql: String| ops.push(MOp { table: t, kind, sql, seq: kind == "select_ordered" });
+    for i in 0..MF_TABLES {
+        push(&mut ops, Some(i), "create_table", format!("CREATE TABLE {} (id BIGINT PRIMARY KEY, k BIGINT, v TEXT)", mf_name(i)));
+        push(&mut ops, Some(i), "create_index", format!("CREATE INDEX mx{:02} ON {} (k)", i, mf_name(i)));
+    }
+    let mut serial = 0usize;
+    for r in 0..rounds {
+        // every round touches all tables once, in a fresh random order, so each access re-opens an evicted file
+        let mut order: Vec<usize> = (0..MF_TABLES).collect();
+        rng.shuffle(&mut order);
+        let mode = if r == 0 { 0 } else { rng.below(5) };
+        // 0 autocommit, 1 txn commit, 2 txn rollback, 3 autocommit mixed dml, 4 txn commit mixed dml
+        let in_txn = matches!(mode, 1 | 2 | 4);
+        if in_txn {
+            push(&mut ops, None, "begin", "BEGIN".into());
+        }
+        let rolled_back = mode == 2;
+        let snapshot = (next_id.clone(), live.clone());
+        for &i in &order {
+            serial += 1;
+            let name = mf_name(i);
+            let action = if matches!(mode, 3 | 4) && !live[i].is_empty() { rng.below(4) } else { 0 };
+            match action {
+                0 | 1 => {
+                    let nrows = rng.usize(1, 3);
+                    let mut vals = vec![];
+                    for _ in 0..nrows {
+                        let id = next_id[i];
+                        next_id[i] += 1;
+                        live[i].push(id);
+                        let pad = if rng.chance(1, 4) { "x".repeat(rng.usize(200, 1500)) } else { String::new() };
+                        vals.push(format!("({}, {}, 'T{}.R{}.S{}.id{}{}')", id, id % 4, i, r, serial, id, pad));
+                    }
+                    push(&mut ops, Some(i), "insert", format!("INSERT INTO {} VALUES {}", name, vals.join(", ")));
+                }
+                2 => {
+                    let id = *rng.pick(&live[i]);
+                    push(&mut ops, Some(i), "update", format!("UPDATE {} SET k = k + 4, v = 'U{}.R{}.S{}.id{}' WHERE id = {}", name, i, r, serial, id, id));
+                }
+                _ => {
+                    let pos = rng.below(live[i].len() as u64) as usize;
+                    let id = live[i].remove(pos);
+                    push(&mut ops, Some(i), "delete", format!("DELETE FROM {} WHERE id = {}", name, id));
+                }
+            }
+            if rng.chance(1, 12) {
+                push(&mut ops, Some(i), "select_ordered", format!("SELECT id, k, v FROM {} ORDER BY id", name));
+            }
+        }
+        if in_txn {
+            if rolled_back {
+                push(&mut ops, None, "rollback", "ROLLBACK".into());
+                next_id = snapshot.0;
+                live = snapshot.1;
+            } else {
+                push(&mut ops, None, "commit", "COMMIT".into());
+            }
+        }
+    }
+    ops
+}
+
+/// distinct files of `dir` currently mmapped by this process
+fn mapped_files(dir: &Path) -> usize {
+    let prefix = dir.to_string_lossy().to_string();
+    let maps = std::fs::read_to_string("/proc/self/maps").unwrap_or_default();
+    let mut set = BTreeSet::new();
+    for l in maps.lines() {
+        if let Some(p) = l.find(&prefix) {
+            let path = &l[p..];
+            if path.contains(".tbd") || path.contains(".idx") {
+                set.insert(path.trim_end_matches(" (deleted)").to_string());
+            }
+        }
+    }
+    set.len()
+}
+
+fn count_files(dir: &Path) -> usize {
+    let mut n = 0;
+    if let Ok(rd) = std::fs::read_dir(dir) {
+        for e in rd.flatten() {
+            let p = e.path();
+            if p.is_dir() {
+                n += count_files(&p);
+            } else if p.extension().map(|x| x == "tbd" || x == "idx").unwrap_or(false) {
+                n += 1;
+            }
+        }
+    }
+    n
+}
+
+#[derive(Default, Clone)]
+struct MfRun {
+    outs: Vec<Obs>,
+    fin: Vec<(String, String, Obs)>,
+    reopen: Option<Obs>,
+    after: Vec<(String, String, Obs)>,
+    max_mapped: usize,
+    files_on_disk: usize,
+    pragma_errs: Vec<(String, Obs)>,
+    max_frames: u64,
+}
+
+fn mf_observe(hs: &mut [Handle], per_db: usize) -> Vec<(String, String, Obs)> {
+    let mut v = vec![];
+    for i in 0..MF_TABLES {
+        let h = &mut hs[i / per_db];
+        let name = mf_name(i);
+        for (label, sql, seq) in [
+            ("rows", format!("SELECT id, k, v FROM {} ORDER BY id", name), true),
+            ("count_star", format!("SELECT COUNT(*) FROM {}", name), false),
+            ("index_lookup", format!("SELECT id FROM {} WHERE k = 1", name), false),
+            ("index_lookup", format!("SELECT id FROM {} WHERE k = 6", name), false),
+            ("index_lookup", format!("SELECT id, k FROM {} WHERE id = 2", name), false),
+        ] {
+            let o = h.exec(&sql, seq);
+            v.push((label.to_string(), sql, o));
+        }
+    }
+    v
+}
+
+/// run the logical history on `ndb` databases (tables i -> database i / per_db)
+fn run_many(root: &Path, tag: &str, ops: &[MOp], pragmas: &[Pragma], per_db: usize, explicit_close: bool) -> MfRun {
+    let ndb = (MF_TABLES + per_db - 1) / per_db;
+    let mut out = MfRun::default();
+    let mut hs: Vec<Handle> = vec![];
+    for d in 0..ndb {
+        let dir = root.join(format!("{}-{}", tag, d));
+        let _ = std::fs::remove_dir_all(&dir);
+        match Handle::create(&dir, pragmas, explicit_close) {
+            Ok(h) => hs.push(h),
+            Err(o) => {
+                out.outs.push(o);
+                return out;
+            }
+        }
+    }
+    for (n, op) in ops.iter().enumerate() {
+        let o = match op.table {
+            Some(i) => {
+                let h = &mut hs[i / per_db];
+                let o = h.exec(&op.sql, op.seq);
+                h.sample_frames();
+                o
+            }
+            None => {
+                // broadcast: all must agree; the combined outcome is the first non-ok one
+                let mut comb = Obs::ok();
+                for h in hs.iter_mut() {
+                    let o = h.exec(&op.sql, false);
+                    if o.status != "ok" && comb.status == "ok" {
+                        comb = o;
+                    }
+                }
+                comb
+            }
+        };
+        out.outs.push(o);
+        if ndb == 1 && n % 24 == 0 {
+            out.max_mapped = out.max_mapped.max(mapped_files(&hs[0].path));
+        }
+    }
+    out.fin = mf_observe(&mut hs, per_db);
+    if ndb == 1 {
+        out.max_mapped = out.max_mapped.max(mapped_files(&hs[0].path));
+        out.files_on_disk = count_files(&hs[0].path);
+    }
+    let mut reopen = Obs::ok();
+    for h in hs.iter_mut() {
+        let o = h.reopen(false);
+        if o.status != "ok" && reopen.status == "ok" {
+            reopen = o;
+        }
+    }
+    if reopen.status == "ok" {
+        out.after = mf_observe(&mut hs, per_db);
+    }
+    out.reopen = Some(reopen);
+    for h in hs.iter_mut() {
+        out.pragma_errs.extend(h.pragma_errs.clone());
+        out.max_frames = out.max_frames.max(h.max_frames);
+        let _ = h.close();
+        let _ = std::fs::remove_dir_all(&h.path);
+    }
+    out
+}
+
+fn mf_first_diff(ops: &[MOp], a: &MfRun, b: &MfRun) -> Option<Diff> {
+    if let Some((p, o)) = b.pragma_errs.first() {
+        return Some(Diff { kind: "pragma".into(), what: o.status.clone(), at: None, sql: p.clone(), base: J::Null, got: o.json() });
+    }
+    for (i, op) in ops.iter().enumerate() {
+        match (a.outs.get(i), b.outs.get(i)) {
+            (Some(x), Some(y)) => {
+                if let Some(w) = diff_obs(x, y) {
+                    return Some(Diff { kind: op.kind.to_string(), what: w, at: Some(i), sql: op.sql.chars().take(300).collect(), base: x.json(), got: y.json() });
+                }
+            }
+            _ => return Some(Diff { kind: "create_database".into(), what: "error".into(), at: None, sql: String::new(), base: json!(a.outs.last().map(|o| o.json())), got: json!(b.outs.last().map(|o| o.json())) }),
+        }
+    }
+    for (x, y) in a.fin.iter().zip(b.fin.iter()) {
+        if let Some(w) = diff_obs(&x.2, &y.2) {
+            let what = if w == "rows" || w == "rows_affected" { x.0.clone() } else { w };
+            return Some(Diff { kind: "final_state".into(), what, at: None, sql: x.1.clone(), base: x.2.json(), got: y.2.json() });
+        }
+    }
+    if let (Some(x), Some(y)) = (&a.reopen, &b.reopen) {
+        if let Some(w) = diff_obs(x, y) {
+            return Some(Diff { kind: "final_reopen".into(), what: w, at: None, sql: "close + Database::open".into(), base: x.json(), got: y.json() });
+        }
+    }
+    for (x, y) in a.after.iter().zip(b.after.iter()) {
+        if let Some(w) = diff_obs(&x.2, &y.2) {
+            let what = if w == "rows" || w == "rows_affected" { x.0.clone() } else { w };
+            return Some(Diff { kind: "after_reopen".into(), what, at: None, sql: x.1.clone(), base: x.2.json(), got: y.2.json() });
+        }
+    }
+    None
+}
+
+/// one many-files job: the logical history under one configuration (None = no pragma), run on one database
+/// (> 64 files) and split over 9 databases; configured jobs also run the one-database baseline themselves
+fn process_many_files(idx: usize, ci: usize, ops: &[MOp], cfg: Option<Cfg>, explicit_close: bool, shrink_budget: usize, sh: &Shared) -> HistResult {
+    let mut res = HistResult { idx: idx * 100 + ci, kind: "many_files".into(), ..Default::default() };
+    let root = &sh.root;
+    let ohash = fnv(format!("{:?}", ops.iter().map(|o| &o.sql).collect::<Vec<_>>()).as_bytes());
+    let pragmas: Vec<Pragma> = cfg.map(|c| c.pragmas(4)).unwrap_or_default();
+    let label = cfg.map(|c| c.label()).unwrap_or_else(|| "baseline (no pragma)".into());
+    let one = run_many(root, &format!("mf{}-{}-one", idx, ci), ops, &pragmas, MF_TABLES, explicit_close);
+    let split = run_many(root, &format!("mf{}-{}-split", idx, ci), ops, &pragmas, MF_SPLIT, explicit_close);
+    res.evals += 2;
+    *res.counters.entry("many_files_runs".into()).or_insert(0) += 2;
+    res.maxima.insert("many_files_max_mapped_files".into(), one.max_mapped as u64);
+    res.maxima.insert("many_files_files_on_disk".into(), one.files_on_disk as u64);
+    res.maxima.insert("many_files_statements".into(), ops.len() as u64);
+    // eviction measured: more table/index files on disk than were ever mapped at once
+    if one.files_on_disk > 64 && one.max_mapped > 0 && one.max_mapped < one.files_on_disk {
+        res.nontrivial.push(ohash ^ fnv(label.as_bytes()) ^ 0x4d46);
+        *res.counters.entry("many_files_runs_with_eviction".into()).or_insert(0) += 1;
+    }
+    if cfg.map(|c| c.wal).unwrap_or(false) && one.max_frames > 0 {
+        *res.counters.entry("many_files_runs_with_wal_frames".into()).or_insert(0) += 1;
+    }
+    // (a) one database with > 64 files vs the same history split over databases that never evict
+    if let Some(d) = mf_first_diff(ops, &split, &one) {
+        let want = (d.kind.clone(), d.what.clone());
+        let mut b = if sh.late(0.5) { 0 } else { shrink_budget };
+        let mut best = d.clone();
+        let mut test = |c: &[MOp]| {
+            let s = run_many(root, &format!("mf{}-{}-s-split", idx, ci), c, &pragmas, MF_SPLIT, explicit_close);
+            let o = run_many(root, &format!("mf{}-{}-s-one", idx, ci), c, &pragmas, MF_TABLES, explicit_close);
+            match mf_first_diff(c, &s, &o) {
+                Some(d2) if d2.kind == want.0 && d2.what == want.1 => {
+                    best = d2;
+                    true
+                }
+                _ => false,
+            }
+        };
+        let min_ops = if b > 0 { ddmin(ops, &mut b, &mut test) } else { ops.to_vec() };
+        let sig = format!("C42/many_files/{}:{}", d.kind, d.what);
+        res.violations.push((
+            "many_files".into(),
+            sig,
+            json!({"config": label, "compared": "one database holding all 72 tables + 72 indexes  vs  the same logical history split over 9 databases of 8 tables", "first_difference": {"kind": best.kind, "what": best.what, "statement_index": best.at, "sql": best.sql, "split_databases": best.base, "one_database": best.got},
+            "minimal_ops": min_ops.iter().take(400).map(|o| o.sql.chars().take(200).collect::<String>()).collect::<Vec<_>>(), "original_ops": ops.len(), "files_on_disk": one.files_on_disk, "max_mapped_files": one.max_mapped}),
+        ));
+    }
+    // (b) across configurations (one-database runs): this configuration vs no pragma
+    if let Some(c) = cfg {
+        let b0 = run_many(root, &format!("mf{}-{}-base", idx, ci), ops, &[], MF_TABLES, explicit_close);
+        res.evals += 1;
+        *res.counters.entry("many_files_runs".into()).or_insert(0) += 1;
+        if let Some(d) = mf_first_diff(ops, &b0, &one) {
+            // does the split run differ from the baseline the same way? then it is not about many files
+            let also_split = mf_first_diff(ops, &b0, &split).map(|d2| d2.kind == d.kind && d2.what == d.what).unwrap_or(false);
+            let ps = c.pragmas(4).iter().filter(|p| !(p.name == "synchronous" && p.value == "FULL") && !(p.name == "wal_autoflush" && p.value == "ON") && !(p.name == "wal" && p.value == "OFF")).map(|p| p.sig()).collect::<Vec<_>>().join("+");
+            let sig = format!("C42/many_files/config:{}/{}:{}{}", ps, d.kind, d.what, if also_split { "/also_with_few_files" } else { "" });
+            res.violations.push(("many_files_config".into(), sig, json!({"config": label, "compared": "one database with 72 tables under this configuration vs under no pragma", "first_difference": {"kind": d.kind, "what": d.what, "statement_index": d.at, "sql": d.sql, "baseline": d.base, "configured": d.got}, "same_difference_with_few_tables_per_database": also_split})));
+        }
+    }
+    if ci == 0 && idx == 0 {
+        res.sample = Some(json!({"many_files_history": {"ops": ops.len(), "ops_after_ddl": ops.iter().skip(2 * MF_TABLES).take(6).map(|o| o.sql.chars().take(120).collect::<String>()).collect::<Vec<_>>(), "files_on_disk": one.files_on_disk, "max_mapped_files": one.max_mapped}}));
+    }
+    res
+}
+
+// ------------------------------------------------------------------------------------------------
+// entry
+// ------------------------------------------------------------------------------------------------
+
+enum Job {
+    Hist(usize, Hist, Vec<Cfg>),
+    Many(usize, usize, Vec<MOp>, Option<Cfg>, bool),
+}
+
+/// the job list is a pure function of (tier, seed): parent and workers build the same list
+fn build_jobs(seed: u64, quick: bool) -> Vec<Job> {
+    let mut rng = Rng::derive(seed, 42);
+    let (nhist, ncfg, max_stmts) = if quick { (20usize, 6usize, 34usize) } else { (300, 24, 44) };
+    let mut jobs: Vec<Job> = vec![];
+    // many-files jobs first (they are the longest)
+    let n_mf = if quick { 1 } else { 5 };
+    for i in 0..n_mf {
+        let mut r = Rng::derive(seed, 4200 + i as u64);
+        let rounds = if quick { 3 } else { r.usize(4, 8) };
+        let ops = gen_many_files(&mut r, rounds);
+        let mut cfgs: Vec<Option<Cfg>> = vec![None];
+        if quick {
+            cfgs.push(Some(Cfg { wal: true, sync: 1, autoflush: r.chance(1, 2), tiny: true }));
+        } else {
+            let mut picks = pick_cfgs(&mut r, 6);
+            picks.retain(|c| c.wal);
+            picks.truncate(3);
+            cfgs.extend(picks.into_iter().map(Some));
+        }
+        let explicit_close = r.chance(1, 2);
+        for (ci, c) in cfgs.into_iter().enumerate() {
+            jobs.push(Job::Many(i, ci, ops.clone(), c, explicit_close));
+        }
+    }
+    for i in 0..nhist {
+        let h = gen_history(&mut rng, max_stmts);
+        let cfgs = if ncfg >= 24 { all_cfgs() } else { pick_cfgs(&mut rng, ncfg) };
+        jobs.push(Job::Hist(i, h, cfgs));
+    }
+    jobs
+}
+
+/// worker process: claims jobs (first come first served through claim files), appends one JSON line per job
+fn worker(a: &Args, k: usize, root: PathBuf, budget_s: f64) -> i32 {
+    let quick = a.tier == "quick";
+    let jobs = build_jobs(a.seed, quick);
+    let sh = Shared { root: root.clone(), max_minimise_per_sig: if quick { 1 } else { 2 }, known: known_sigs(), start: Instant::now(), budget_s };
+    let out_path = root.join(format!("worker-{}.jsonl", k));
+    let mut out = String::new();
+    for (j, job) in jobs.iter().enumerate() {
+        if !sh.claim(&format!("claim-job-{}", j)) {
+            continue;
+        }
+        if sh.late(1.0) {
+            out.push_str(&json!({"job": j, "skipped": true}).to_string());
+            out.push('\n');
+            let _ = std::fs::write(&out_path, &out);
+            continue;
+        }
+        let _ = std::fs::write(root.join(format!("worker-{}.current", k)), format!("{}", j));
+        let r = match job {
+            Job::Hist(i, h, cfgs) => match catch(|| process_history(*i, h, cfgs, &sh)) {
+                Ok(r) => r,
+                Err(p) => {
+                    let mut r = HistResult { idx: *i, kind: "history".into(), ..Default::default() };
+                    r.violations.push(("harness".into(), "C42/harness_panic".into(), json!({"panic": p})));
+                    r
+                }
+            },
+            Job::Many(i, ci, ops, cfg, explicit_close) => match catch(|| process_many_files(*i, *ci, ops, *cfg, *explicit_close, if quick { 0 } else { 30 }, &sh)) {
+                Ok(r) => r,
+                Err(p) => {
+                    let mut r = HistResult { idx: *i, kind: "many_files".into(), ..Default::default() };
+                    r.violations.push(("harness".into(), "C42/harness_panic".into(), json!({"panic": p})));
+                    r
+                }
+            },
+        };
+        out.push_str(&r.to_json(j).to_string());
+        out.push('\n');
+        let _ = std::fs::write(&out_path, &out);
+    }
+    let _ = std::fs::remove_file(root.join(format!("worker-{}.current", k)));
+    0
+}
+
+pub fn run(a: &Args) -> i32 {
+    // worker mode: tv C42 --tier T --seed S c42-worker <k> <root> <budget_s>
+    if a.rest.first().map(|s| s == "c42-worker").unwrap_or(false) {
+        let k: usize = a.rest.get(1).and_then(|s| s.parse().ok()).unwrap_or(0);
+        let root = PathBuf::from(a.rest.get(2).cloned().unwrap_or_default());
+        let budget: f64 = a.rest.get(3).and_then(|s| s.parse().ok()).unwrap_or(40.0);
+        return worker(a, k, root, budget);
+    }
+    let mut ctx = Ctx::new(
+        "C42",
+        &a.tier,
+        a.seed,
+        "exploration",
+        "model-free differential: a generated history (1-3 tables with pk / secondary index / UNIQUE column; multi-row INSERT incl. ones failing on a duplicate key, prepared INSERT bursts through the cached-plan path, UPDATE, DELETE, TRUNCATE, BEGIN..COMMIT/ROLLBACK with savepoints, explicit PRAGMA wal_checkpoint, clean reopen, SELECTs with WHERE / ORDER BY pk / aggregates; each history draws a random subset of these features) is run on a fresh database with no pragma (baseline) and once per configuration {wal ON|OFF} x {synchronous OFF|NORMAL|FULL} x {wal_autoflush ON|OFF} x {wal_checkpoint_threshold tiny(2..10)|default}; per-statement outcome (ok/error class/panic site, rows_affected, rows as bag or as sequence under ORDER BY pk), final state (SELECT * bag, COUNT(*), ordered pk list, pk/secondary/unique index probes) and the same observations after clean close + reopen must equal the baseline. A mismatch is reduced by dropping pragmas one at a time and knocking out history features one at a time (signature = needed pragmas / needed features / statement kind or observation / what differs), then ddmin over the statements for the replay file. Many-files variant: 72 tables + 72 indexes (290 files > 64-entry open-file LRU) written round-robin in autocommit and inside committed/rolled-back transactions, compared with the same history split over 9 small databases, with the no-pragma run, and after reopen. distinct_nontrivial = (history, configuration) pairs in which PRAGMA wal_frame_count showed WAL frames actually written, plus many-files runs in which fewer files were mmapped than exist on disk (eviction measured through /proc/self/maps). Work is spread over worker processes (mmap-heavy work does not scale over threads of one process)",
+    );
+    if cfg!(miri) {
+        ctx.inconclusive("C42 needs real database directories (mmap, fsync); not runnable under Miri");
+        return ctx.finish();
+    }
+    let quick = ctx.quick();
+    let scratch = Scratch::new("c42");
+    let budget_s = if quick { 42.0f64 } else { 500.0 };
+    let jobs = build_jobs(a.seed, quick);
+    let nworkers = std::thread::available_parallelism().map(|n| n.get()).unwrap_or(4).clamp(2, 14).min(jobs.len());
+    let exe = match std::env::current_exe() {
+        Ok(e) => e,
+        Err(e) => {
+            ctx.inconclusive(&format!("cannot locate own executable: {}", e));
+            return ctx.finish();
+        }
+    };
+    let mut children = vec![];
+    for k in 0..nworkers {
+        let c = std::process::Command::new(&exe)
+            .args(["C42", "--tier", &a.tier, "--seed", &a.seed.to_string(), "c42-worker", &k.to_string(), &scratch.root.to_string_lossy(), &format!("{}", budget_s)])
+            .stdout(std::process::Stdio::null())
+            .stderr(std::process::Stdio::null())
+            .spawn();
+        match c {
+            Ok(c) => children.push((k, c)),
+            Err(e) => ctx.inconclusive(&format!("cannot spawn worker {}: {}", k, e)),
+        }
+    }
+    for (k, mut c) in children {
+        let st = c.wait();
+        let ok = st.as_ref().map(|s| s.success()).unwrap_or(false);
+        if !ok {
+            // a worker died (abort / signal escapes catch_unwind): attribute to the job it was running
+            let cur = std::fs::read_to_string(scratch.root.join(format!("worker-{}.current", k))).unwrap_or_default();
+            let what = cur.trim().parse::<usize>().ok().and_then(|j| jobs.get(j)).map(|j| match j {
+                Job::Hist(i, h, _) => json!({"history_index": i, "history": hist_json(h)}),
+                Job::Many(i, ci, ..) => json!({"many_files_history": i, "config_index": ci}),
+            });
+            ctx.violation("no_abort", "C42/worker_process_died", json!({"worker": k, "exit": format!("{:?}", st), "job": what}));
+        }
+    }
+    // merge
+    let mut results: BTreeMap<usize, J> = BTreeMap::new();
+    for k in 0..nworkers {
+        if let Ok(t) = std::fs::read_to_string(scratch.root.join(format!("worker-{}.jsonl", k))) {
+            for l in t.lines() {
+                if let Ok(v) = serde_json::from_str::<J>(l) {
+                    results.insert(v["job"].as_u64().unwrap_or(0) as usize, v);
+                }
+            }
+        }
+    }
+    let mut maxima: BTreeMap<String, u64> = BTreeMap::new();
+    let mut samples_hist = 0;
+    for (_, v) in results.iter() {
+        if v["skipped"].as_bool().unwrap_or(false) {
+            ctx.count("jobs_skipped_wall_budget", 1);
+            continue;
+        }
+        ctx.evals(v["evals"].as_u64().unwrap_or(0));
+        if v["kind"] == "history" {
+            ctx.count("histories", 1);
+        } else {
+            ctx.count("many_files_jobs", 1);
+        }
+        for h in v["nontrivial"].as_array().cloned().unwrap_or_default() {
+            if let Some(x) = h.as_str().and_then(|s| u64::from_str_radix(s, 16).ok()) {
+                ctx.nontrivial(x);
+            }
+        }
+        if let Some(m) = v["counters"].as_object() {
+            for (k, n) in m {
+                ctx.count(k, n.as_u64().unwrap_or(0));
+            }
+        }
+        if let Some(m) = v["maxima"].as_object() {
+            for (k, n) in m {
+                let e = maxima.entry(k.clone()).or_insert(0);
+                *e = (*e).max(n.as_u64().unwrap_or(0));
+            }
+        }
+        if !v["sample"].is_null() {
+            if v["kind"] == "history" {
+                samples_hist += 1;
+                if samples_hist <= 2 {
+                    ctx.sample(v["sample"].clone());
+                }
+            } else {
+                ctx.sample(v["sample"].clone());
+            }
+        }
+        for x in v["violations"].as_array().cloned().unwrap_or_default() {
+            ctx.violation(x[0].as_str().unwrap_or(""), x[1].as_str().unwrap_or(""), x[2].clone());
+        }
+    }
+    if results.len() < jobs.len() {
+        ctx.count("jobs_without_result", (jobs.len() - results.len()) as u64);
+    }
+    for (k, v) in maxima {
+        ctx.counters.insert(k, v);
+    }
+    ctx.count("worker_processes", nworkers as u64);
+    ctx.assumptions.push("the baseline is a database on which no PRAGMA was issued; pragmas are re-issued after every mid-history reopen because they are not persisted; the value returned by PRAGMA wal_checkpoint (frames checkpointed) is configuration dependent by design and only its ok/error status is compared; result order without ORDER BY is not compared (bags); a transaction still open at the end of a (reduced) history is committed by the harness in every run alike; both Database::close()+drop and drop alone count as a clean close".into());
+    drop(scratch);
+    ctx.finish()
 }
